@@ -619,7 +619,96 @@ func c10LateCleanup(o *common.Out, id, mode string) {
 	o.ImplOnly(id, abstract, true)
 }
 
+// c10BackupSlowDial: fail-backup towards a server whose connection takes longer to establish than the backup latency:
+// the latency counts from the moment the first request has been sent, so an answer that comes right away means no
+// second request.  Oracle only.  case: slowdial|<answer delay ms>
+func c10BackupSlowDial(o *common.Out, id string, answerAfter int) {
+	abstract := fmt.Sprintf("slowdial|%d", answerAfter)
+	o.Begin(id, abstract)
+	o.Count("backup-after-a-slow-dial")
+	uid := atomic.AddInt64(&c10seq, 1)
+	const latency = 900 * time.Millisecond
+	ctrl := &bkCtrl{ev: make(chan bkEvent, 16)}
+	log := &attemptLog{}
+	var keys, addrs []string
+	for i := 0; i < 2; i++ {
+		addr := fmt.Sprintf("c10sd-%d-s%d", uid, i)
+		fs := &fakeServer{id: i, calls: []string{fmt.Sprintf("ok%d", 7+i)}, log: log, ctrl: ctrl}
+		if i == 0 {
+			fs.slowDial = latency + 200*time.Millisecond
+		}
+		registerFake(addr, fs)
+		addrs = append(addrs, addr)
+		keys = append(keys, "vsrv@"+addr)
+	}
+	defer func() {
+		for _, a := range addrs {
+			unregisterFake(a)
+		}
+	}()
+	d, _ := client.NewMultipleServersDiscovery([]*client.KVPair{{Key: keys[0]}, {Key: keys[1]}})
+	opt := client.DefaultOption
+	opt.SerializeType = protocol.JSON
+	opt.Heartbeat = false
+	opt.BackupLatency = latency
+	xc := client.NewXClient("Svc", client.Failbackup, client.SelectByUser, d, opt)
+	defer xc.Close()
+	// the selection at the top of Call goes to server 1 (fast), the first request to server 0 (slow to connect)
+	xc.SetSelector(&rrSel{servers: keys, i: 1})
+	resc := make(chan string, 1)
+	go func() {
+		reply := -1
+		if err := xc.Call(context.Background(), "M", 1, &reply); err != nil {
+			resc <- c10ErrClass(err)
+		} else {
+			resc <- "ok:" + strconv.Itoa(reply)
+		}
+	}()
+	var first, second *bkEvent
+	deadline := time.After(6 * time.Second)
+	res := ""
+loop:
+	for {
+		select {
+		case e := <-ctrl.ev:
+			if e.kind != "arrive" {
+				continue
+			}
+			ev := e
+			if first == nil {
+				first = &ev
+				go func() { time.Sleep(time.Duration(answerAfter) * time.Millisecond); close(ev.rel) }()
+			} else {
+				second = &ev
+				close(ev.rel)
+			}
+		case res = <-resc:
+			break loop
+		case <-deadline:
+			o.Fail(id, "hang", "the fail-backup call did not return within 6 s", abstract)
+			return
+		}
+	}
+	if !strings.HasPrefix(res, "ok:") {
+		o.Fail(id, "untruthful-result", fmt.Sprintf("both servers answer successfully, the call returned %q", res), abstract)
+	}
+	if second != nil {
+		if gap := second.at.Sub(first.at); gap < latency/2 {
+			o.Fail(id, "backup-too-early", fmt.Sprintf("the first request reached its server (whose connection took %v to establish) and was answered after %d ms; the backup request reached the other server %v after the first - the backup latency is %v", latency+200*time.Millisecond, answerAfter, gap, latency), abstract)
+		}
+	}
+	o.ImplOnly(id, abstract, true)
+}
+
 func runC10(r *common.Rand, tier string, o *common.Out, replay string) {
+	if strings.HasPrefix(replay, "slowdial|") {
+		n, _ := strconv.Atoi(strings.TrimPrefix(replay, "slowdial|"))
+		c10BackupSlowDial(o, "replay", n)
+		return
+	}
+	if replay == "" {
+		c10BackupSlowDial(o, "slowdial0", 5)
+	}
 	if strings.HasPrefix(replay, "late|") {
 		c10LateCleanup(o, "replay", strings.TrimPrefix(replay, "late|"))
 		return
